@@ -361,15 +361,17 @@ def configs_for(ctx: Ctx) -> List[dict]:
     return [{"max": mx, "compress": comp, "decode": dec} for (mx, comp, dec) in combos]
 
 
-def seg_opts(ctx: Ctx, n: int) -> dict:
-    return {"pairs_upto": ctx.pick(10, 120), "all_cuts_upto": ctx.pick(48, 160), "bytewise_upto": ctx.pick(260, 1500),
+def seg_opts(ctx: Ctx, n: int, k: int = 0) -> dict:
+    # pairs of cuts: quick <= 10 bytes; thorough <= 40 bytes, and <= 120 bytes for every 12th group
+    pairs = ctx.pick(10, 120 if k % 12 == 0 else 40)
+    return {"pairs_upto": pairs, "all_cuts_upto": ctx.pick(48, 160), "bytewise_upto": ctx.pick(260, 1500),
             "n_random": ctx.pick(2, 6)}
 
 
 def drive_injected(ctx: Ctx, loop: steploop.StepLoop) -> None:
     """Valid frame sequences with every violation class injected at every frame position.
-    quick: per configuration every class once (the position rotates), every valid sequence;
-    thorough: every class at every position."""
+    Every class appears at every frame position across the configurations (the position rotates with
+    the class and the configuration); quick: one position per class and configuration, thorough: four."""
     rng = ctx.rng
     b = Batcher(ctx, "injected")
     classes_done: set = set()
@@ -390,11 +392,12 @@ def drive_injected(ctx: Ctx, loop: steploop.StepLoop) -> None:
         for name, stream in streams:
             byclass.setdefault(name.split(":")[-1] if not name.startswith("valid:") else name, []).append((name, stream))
         for ki, (klass, lst) in enumerate(sorted(byclass.items())):
-            if ctx.quick and not klass.startswith("valid:"):
-                lst = [lst[(ki + 3 * ci) % len(lst)]]
+            if not klass.startswith("valid:"):
+                npos = ctx.pick(1, 4)             # positions per class and configuration
+                lst = [lst[(ki + 3 * ci + j * max(1, len(lst) // npos)) % len(lst)] for j in range(min(npos, len(lst)))]
             for name, stream in lst:
                 classes_done.add(klass)
-                segs = G.segmentations(rng, stream, **seg_opts(ctx, len(stream)))
+                segs = G.segmentations(rng, stream, **seg_opts(ctx, len(stream), ngroups))
                 b.add(run_group(loop, name, stream, cfg, segs, "grammar+defect"))
                 ngroups += 1
     b.flush()
@@ -407,7 +410,7 @@ def drive_random(ctx: Ctx, loop: steploop.StepLoop) -> None:
     rng = ctx.rng
     b = Batcher(ctx, "random")
     cfgs = configs_for(ctx)
-    n = ctx.pick(500, 6000)
+    n = ctx.pick(350, 3000)
     for name, stream in G.random_streams(rng, n):
         cfg = rng.choice(cfgs)
         segs = G.segmentations(rng, stream, pairs_upto=ctx.pick(0, 24), all_cuts_upto=ctx.pick(40, 64), bytewise_upto=300, n_random=1)
@@ -445,7 +448,7 @@ def drive_model_behaviours(ctx: Ctx, loop: steploop.StepLoop) -> None:
     b = Batcher(ctx, "tlc-sim")
     for (mx, comp, dec) in ((4, True, True), (0, False, True)):
         cfgp = write_cfg(mx, comp, dec, 3, 3, "full")
-        behs, _res = simulate_behaviours("WsFramesMC", cfgp, num=ctx.pick(150, 1500), depth=ctx.pick(14, 24),
+        behs, _res = simulate_behaviours("WsFramesMC", cfgp, num=ctx.pick(100, 1500), depth=ctx.pick(14, 24),
                                          seed=ctx.seed, timeout=300)
         for beh in behs:
             chunks: List[int] = []
@@ -489,6 +492,8 @@ def run(ctx: Ctx) -> None:
     drive_large(ctx, loop)
     drive_random(ctx, loop)
     ctx.log(f"random done: traces={ctx.traces} runs={ctx.evaluations}")
+    # report anything that is not one of the named deviations first
+    ctx.violations.sort(key=lambda v: v.clause in tuple("Accepted:" + d for d in DEVIATION_RULES))
     loop.uninstall()
 
 
